@@ -2,6 +2,7 @@ package ast
 
 import (
 	"fmt"
+	"strconv"
 	"strings"
 
 	"github.com/smarthome-go/homescript/v3/homescript/errors"
@@ -70,12 +71,13 @@ type FloatLiteralExpression struct {
 func (self FloatLiteralExpression) Kind() ExpressionKind { return FloatLiteralExpressionKind }
 func (self FloatLiteralExpression) Span() errors.Span    { return self.Range }
 func (self FloatLiteralExpression) String() string {
-	// If the float can be replresented as an int without loss, the 'f' extension is forced.
-	if float64(int64(self.Value)) == self.Value {
-		return fmt.Sprintf("%df", int64(self.Value))
+	// Plain decimal notation (the lexer reads no exponents); a literal without fraction gets one, so that it stays a float.
+	text := strconv.FormatFloat(self.Value, 'f', -1, 64)
+	if !strings.Contains(text, ".") {
+		text += ".0"
 	}
 
-	return fmt.Sprint(self.Value)
+	return text
 }
 
 //
